@@ -15,6 +15,11 @@ import (
 func ConvertToValue(structure json.Structure) value.Primary {
 	var p value.Primary
 
+	if structure == nil {
+		// an empty JSON text holds no value
+		return value.NewNull()
+	}
+
 	switch structure.(type) {
 	case json.Number:
 		p = value.NewFloat(structure.(json.Number).Raw())
